@@ -75,7 +75,10 @@ impl RuntimeSettings {
         for component in path.iter() {
             // &OsStr is dumb so we convert each component into &str, hopefully the conversion isn't noticeable on runtime
             if let Some(c) = component.to_str() {
-                if c.starts_with('{') && c.ends_with('}') {
+                if c.starts_with('{')
+                    && c.ends_with('}')
+                    && !c[1..c.len() - 1].contains(|x| x == '{' || x == '}')
+                {
                     // left/{thingy}/right
 
                     let custom_option = &c[1..c.len() - 1];
